@@ -136,6 +136,7 @@ func runC01(rc *RunCtx) {
 		echoed     []byte
 		done       bool
 		err        error
+		saltPrefix []byte
 	}
 	nConn := 1 + G.Draw(8)
 	if G.Draw(3) == 0 {
@@ -161,6 +162,13 @@ func runC01(rc *RunCtx) {
 			if r := rotated[c.key]; r != nil && G.Draw(2) == 0 {
 				c.key = r
 			}
+		}
+		// the salt is the client's choice: any bytes, for instance a prefix that makes
+		// the connection look like another protocol (the Outline client's option)
+		if c.kind != 1 && G.Draw(6) == 0 {
+			pre := [][]byte{[]byte("GET "), []byte("POST "), []byte("HEAD "), []byte("PUT "), []byte("SSH-2.0"), {0x16, 0x03, 0x01}, {0x16, 0x03, 0x03}, []byte("HTTP/1.1 "), {0x13, 'B', 'i', 't'}, {0, 0, 0, 0}, {0xff, 0xff, 0xff, 0xff}}
+			c.saltPrefix = pre[G.Draw(len(pre))]
+			simrt.Probe("salt_with_a_protocol_looking_prefix")
 		}
 		conns[k] = c
 		port := 8000 + k
@@ -208,6 +216,9 @@ func runC01(rc *RunCtx) {
 				return
 			}
 			enc := newEncoder(c.key)
+			if len(c.saltPrefix) > 0 {
+				enc.w.SetSaltGenerator(fixedSalt(append(append([]byte{}, c.saltPrefix...), payload(G, c.key.EK.SaltSize()-len(c.saltPrefix))...)))
+			}
 			enc.Lazy(socksAddr(fmt.Sprintf("%s:%d", tgtIP, port)))
 			msg := []byte(fmt.Sprintf("hello-from-%d", k))
 			writeSegmented(G, cc, enc.Chunk(msg), 3)
